@@ -102,6 +102,9 @@ func (i *Index) NumRefs() int {
 // ReferenceStats returns the index statistics for the given reference and true
 // if the statistics are valid.
 func (i *Index) ReferenceStats(id int) (stats index.ReferenceStats, ok bool) {
+	if id < 0 || id >= len(i.refs) {
+		return index.ReferenceStats{}, false
+	}
 	s := i.refs[id].stats
 	if s == nil {
 		return index.ReferenceStats{}, false
